@@ -2098,6 +2098,11 @@ def get_fit_params(
     # Curve fit.
     bounds = [min(x_data[0]), max(x_data[0])]
 
+    # The starting point may be moved below: work on a copy, the caller's
+    # array (for the bootstrap, the best-fit parameters) is not to be altered.
+    if params_0 is not None:
+        params_0 = list(params_0)
+
     if params_0 is not None and not (
         bounds[0] <= params_0[0] and params_0[0] <= bounds[1]
     ):
